@@ -88,6 +88,14 @@ func runStoresHistory() int {
 		for k, v := range in.Hist {
 			var stores []string
 			for _, r := range v.Listed {
+				switch r {
+				case "trav:ca->sa:n1":
+					stores = append(stores, "ca:../signingAuthority/n1") // a name that is a path into another type's store
+					continue
+				case "trav:sa->ca:n1":
+					stores = append(stores, "signingAuthority:../ca/n1")
+					continue
+				}
 				typ, name, _ := strings.Cut(r, ":")
 				stores = append(stores, histTypeDir[typ]+":"+name)
 			}
@@ -98,12 +106,23 @@ func runStoresHistory() int {
 		}
 		var v *verifierHandle
 		ctx := context.Background()
+		refused := false
 		panicked, msg := guarded(func() {
 			vv, err := verifier.NewVerifierWithOptions(truststore.NewX509TrustStore(dir.NewSysFS(root)), verifier.VerifierOptions{OCITrustPolicy: doc,
 				RevocationCodeSigningValidator: ctxValidator{&mockRevocation{}}, RevocationTimestampingValidator: ctxValidator{&mockRevocation{}}})
-			must(err)
+			if err != nil {
+				refused = true // the document is refused as a whole: nothing is verified under it
+				obs.Note = err.Error()
+				return
+			}
 			v = &verifierHandle{vv}
 		})
+		if refused {
+			for range in.Hist {
+				obs.Answers = append(obs.Answers, "fail")
+			}
+			return []traceLine{{ID: c.ID, Variant: format + "/" + level, In: c.In, Obs: obs, Note: obs.Note}}
+		}
 		if panicked {
 			obs.Panic, obs.Note = true, msg
 			return []traceLine{{ID: c.ID, Variant: format, In: c.In, Obs: obs, Note: obs.Note}}
